@@ -42,11 +42,39 @@ def cleared(enc, name, pairs, twin=None):
         # instance, and reachability of this path by its own seed (checked numerically by the driver)
         twin = None
     elif twin is None:
-        for l, r in pairs:
-            if r:
-                twin = [Constraint(1, P.sub(l, P.scale(r, 2)), name + " [twin: lhs = 2 rhs]")]
-                break
+        twin = pick_twin(enc, name, pairs)
     return Ob(name, goal, (), twin)
+
+
+def pick_twin(enc, name, pairs):
+    """deliberately wrong goal 'lhs = 2 rhs' taken from a pair whose right-hand side is numerically non-zero at the seed and
+    still mentions a variable: a right-hand side that is zero only semantically (e.g. through root/inverse variables) would make
+    the twin provable and the obligation look vacuous"""
+    R = enc.ring
+    best = None
+    for l, r in pairs:
+        if not r:
+            continue
+        d = P.sub(l, P.scale(r, 2))
+        if P.is_const(d):
+            continue
+        try:
+            val = abs(R.evalf(r, enc.vals))
+        except Exception:
+            continue
+        if val > 1e-6 and (best is None or len(d) < best[0]):
+            best = (len(d), d)
+            if len(d) < 200:
+                break
+    if best is None:
+        return None
+    return [Constraint(1, best[1], name + " [twin: lhs = 2 rhs]")]
+
+
+def teqs(enc, name, pairs, hyps=()):
+    """conjunction of equalities (no denominator clearing) with a numerically vetted twin"""
+    goal = [Constraint(1, P.sub(l, r), "%s[%d]" % (name, i)) for i, (l, r) in enumerate(pairs)]
+    return Ob(name, goal, hyps, None if long_path(enc) else pick_twin(enc, name, pairs))
 
 
 def long_path(enc, limit=8):
